@@ -163,7 +163,7 @@ def norm_dump_val(typ, v):
     return v
 
 
-def diff_sec(ms, dump, path='', check_mod=True, check_comment=False, sec_mod=False):
+def diff_sec(ms, dump, path='', check_mod=True, check_comment=False, sec_mod=False, simple_mod=False):
     """returns a list of difference strings (empty = equal)"""
     out = []
     if dump is None:
@@ -189,13 +189,15 @@ def diff_sec(ms, dump, path='', check_mod=True, check_comment=False, sec_mod=Fal
             exp = float(mo.sv) if (mo.d.typ == 'float' and mo.sv is not None) else mo.sv
             if got != exp:
                 out.append('%s: simple value %r, expected %r' % (p, got, exp))
+            if simple_mod and check_mod and bool(do['f'] & F_MODIFIED) != mo.mod:
+                out.append('%s: modified flag %s, expected %s' % (p, bool(do['f'] & F_MODIFIED), mo.mod))
             continue
         if len(vals) != len(mo.vals):
             out.append('%s: %d values %r, expected %d %r' % (p, len(vals), short(mo.d.typ, vals), len(mo.vals), short_m(mo.vals)))
             continue
         if mo.d.typ == 'sec':
             for k, (mv, dv) in enumerate(zip(mo.vals, vals)):
-                out.extend(diff_sec(mv, dv, '%s[%d]' % (p, k), check_mod, check_comment, sec_mod))
+                out.extend(diff_sec(mv, dv, '%s[%d]' % (p, k), check_mod, check_comment, sec_mod, simple_mod))
             if sec_mod and check_mod and bool(do['f'] & F_MODIFIED) != mo.mod:
                 out.append('%s: modified flag %s, expected %s' % (p, bool(do['f'] & F_MODIFIED), mo.mod))
             continue
